@@ -555,7 +555,7 @@ pub fn run(ctx: &Ctx) -> Outcome {
     if let Some(p) = &ctx.replay {
         return replay(ctx, p, out);
     }
-    let depth = if ctx.quick() { 2 } else { 3 };
+    let depth = if ctx.quick() { 3 } else { 4 };
     let vals = corpus::values(depth);
     let cnt = Cnt { reads: AtomicU64::new(0) };
     let distinct = Mutex::new(HashSet::<u64>::new());
